@@ -181,7 +181,7 @@ class PROP(PropCheck):
                 hs = list(itertools.product(alphabet, repeat=2))
                 rng.shuffle(hs)
                 out += [self.mk([s] + list(h)) for h in hs[:3000]]
-        for _ in range((250 if tier == "quick" else 15000) * scale):
+        for _ in range((250 if tier == "quick" else 6000) * scale):
             out.append(self.mk([self.gen_op(rng) for _ in range(rng.randint(3, 12 if tier == "quick" else 30))]))
         # write sequences on one file: every ordered pair of contents, appended then overwritten (shorter after longer included)
         for v1 in VALUES:
